@@ -19,7 +19,7 @@ from ..rules import call_sites
 from ..mutate import mutate, remove_stmts, replace_stmt, replace_expr, parse_stmt, parse_expr
 from ..model import AnalysisError
 from ..x_scope import own_nodes, strip_annotations
-from ..x_flow import check_default_only_for_none, protected, unique_def
+from ..x_flow import check_default_only_for_none, protected, unique_def, expanded_facts, expand_locals
 
 TECHNIQUE = "path-sensitive typestate on the CFG with abstract evaluation of the wait-status predicates and exhaustive folding of the budget test"
 EXPLANATION = (
@@ -245,11 +245,12 @@ def supervisor_typestate(ck, A):
                     if pol:
                         pending = None  # parent
                     # else: child, stays pending until the return
-            if classes is not None and A.status in q.names_in(n.ast):
+            test_ = expand_locals(fi, n.ast, keep={A.status, A.pid})
+            if classes is not None and A.status in q.names_in(test_):
                 try:
-                    keep = frozenset(c for c in classes if _eval_on_class(n.ast, A.status, c) == want)
+                    keep = frozenset(c for c in classes if _eval_on_class(test_, A.status, c) == want)
                 except q.NotFoldable as e:
-                    raise AnalysisError("status predicate %s cannot be evaluated on the abstract exit classes (%s)" % (q.unparse(n.ast), e))
+                    raise AnalysisError("status predicate %s cannot be evaluated on the abstract exit classes (%s)" % (q.unparse(test_), e))
                 if not keep:
                     return None
                 classes = keep
@@ -341,7 +342,7 @@ def rule_unknown_pid(ck, A):
                 hd = protected(A.pm, c, "KeyError") if q.is_call(c, A.children + ".pop") else None
                 skips = isinstance(hd, ast.ExceptHandler) and bool(hd.body) and isinstance(hd.body[-1], (ast.Continue, ast.Return, ast.Raise)) and not any(
                     isinstance(x, ast.Call) and q.call_attr(x) == A.start_call for st_ in hd.body for x in ast.walk(st_))
-                ck.ob("C41.unknown-pid", fi, n.ast, holds(facts[n.id], "%s in %s" % (A.pid, A.children), True) or skips,
+                ck.ob("C41.unknown-pid", fi, n.ast, ("%s in %s" % (A.pid, A.children), True) in expanded_facts(fi, facts[n.id]) or skips,
                       "pids that are not our workers are skipped: the lookup of the reaped pid is guarded by `%s in %s` (or its KeyError leaves the iteration)" % (A.pid, A.children))
                 break
     ck.floor("C41.unknown-pid", cnt, 1, "lookups of the reaped pid")
@@ -396,7 +397,7 @@ def rule_start_child(ck, A):
         raise AnalysisError("expected one `pid = os.fork()` in start_child")
     pidn = _bound_name(forks[0])
     # the global published by task_id()
-    tid = ck.func(F, "task_id")
+    tid = ck.use(getattr(ck, "_raw_repo", ck.repo).func(F, "task_id"))  # un-normalised: the global must not be constant-folded away
     rets = [n for n in q.walk_body(tid.node) if isinstance(n, ast.Return)]
     if len(rets) != 1 or not isinstance(rets[0].value, ast.Name):
         raise AnalysisError("task_id() does not return a module global")
@@ -471,6 +472,7 @@ def rule_defaults(ck, A):
 
 
 def run(ck):
+    ck._raw_repo = ck.repo
     ck.repo = strip_annotations(ck.repo, F)
     ck.rule("C41.defaults", "defaults of max_restarts / num_processes replace only None (resp. documented non-positive counts): every legal caller value, including 0 restarts, reaches its use unchanged")
     ck.rule("C41.initial-start", "each id in range(num_processes) is started exactly once, unconditionally")
